@@ -198,6 +198,13 @@ class SyncIter(Iterable):
         if self._stopped is None:
             return
         self._stopped.set()
+        # The worker may be blocked in `put` on the full queue; keep draining
+        # until it has seen the stop flag and exited.
+        while self._worker_thread.is_alive():
+            try:
+                self._q.get(timeout=0.01)
+            except queue.Empty:
+                pass
         self._worker_thread.join()
         self._stopped = None
 
